@@ -528,6 +528,14 @@ int main(int argc, char **argv) {
         return 0;
     }
     if (cmd == "gen" && argc >= 4) { out_line(gen_plan(argv[2], strtoull(argv[3], 0, 10), argc > 4 ? argv[4] : "quick").to_json().dump()); return 0; }
+    if (cmd == "trace" && argc >= 3) {   // simulated system calls of the fault-free run of a stored plan (conformance check)
+        J j; if (!J::parse(slurp(argv[2]), j)) return 2;
+        CtlPlan p; p.from_json(j);
+        C.files.clear(); C.tmp_counter = 0; C.next_fd = 10000; SFile lib; lib.content = "ELF"; C.files[LIBPATH] = lib; if (p.exists) { SFile f; f.content = p.initial; C.files[PRELOAD] = f; }
+        ActOut o = run_action(p.ops[0], -1, -1, 0, false);
+        std::string t; for (auto &e : o.trace) t += e.k + " "; out_line(t);
+        return 0;
+    }
     if (cmd == "replay" && argc >= 3) {
         J j; if (!J::parse(slurp(argv[2]), j)) return 2;
         CtlPlan p; p.from_json(j);
